@@ -17,7 +17,9 @@ RULE = (
     "range of the tile's corners; sampled pixels (the four corners, quadrant seams, generated ones) are also compared with the "
     "Python-side route create_single_tile(Pos(n+8, 256x+j, 256y+i)) + diagonal mid-point. Tiles: every tile to depth 3 (quick) / "
     "5 (thorough) exhaustively, generated tiles to depth 16. Tiles come from create_single_tile and from generate_tiles. "
-    "Non-trivial: n>=1 (every such tile is asymmetric, a transposed or mirrored grid fails)."
+    "The level-0 tile has no Tile object; its grid is observed as the coordinates handed to the sampler by sample_layer(depth 0) and "
+    "compared with the centres of the level-8 tiles. Non-trivial: n>=1 (every such tile is asymmetric, a transposed or mirrored "
+    "grid fails) or the level-0 grid."
 )
 ASSUMPTIONS = ["RefToast pixel centres: 8-fold vertex-grid refinement of the tile's corners + diagonal mid-points of the cells"]
 
@@ -133,9 +135,55 @@ def strat_tiles(draw, tier):
     return {"pos": pos, "pixels": [list(p) for p in px], "planetary_first": draw(st.booleans())}
 
 
+def exec_level0(case):
+    """the level-0 tile (the whole sphere): its pixel grid is observable as the coordinates handed to a sampler when a
+    depth-0 layer is sampled; pixel (i, j) must be the centre of tile (8, j, i)"""
+    from toasty import toast
+    from toasty.pyramid import PyramidIO
+    from ..core import fresh_dir
+
+    planetary = case["planetary"]
+    sysname = "planetary" if planetary else "astronomical"
+    got = []
+
+    def sampler(lon, lat):
+        got.append((np.array(lon, dtype=float), np.array(lat, dtype=float)))
+        return np.ones(np.shape(lon), dtype=np.float32)
+
+    for pre in case.get("before", []):
+        # other uses of the module first (per-process caches)
+        with toasty_call("coords"):
+            toast.toast_tile_get_coords(toast.create_single_tile(toast.Pos(*pre), coordsys=cs_of(not planetary)))
+    with fresh_dir("c05-") as d:
+        with toasty_call("coords", "sampling a depth-0 layer"):
+            toast.sample_layer(PyramidIO(d, default_format="npy"), sampler, 0, coordsys=cs_of(planetary), parallel=1)
+    if len(got) != 1:
+        raise Violation("level0", f"sampling a depth-0 layer ({sysname}) called the sampler {len(got)} times")
+    lon, lat = got[0]
+    if lon.shape != (256, 256) or lat.shape != (256, 256):
+        raise Violation("shape", f"the level-0 grid has shapes {lon.shape}, {lat.shape}")
+    V = rt.lonlat_to_vec(lon, lat)
+    ref = rt.pixel_centres(0, 0, 0, planetary)
+    dd = rt.ang_dist(ref, V)
+    t = 1e-12
+    if dd.max() > t:
+        i, j = np.unravel_index(dd.argmax(), dd.shape)
+        raise Violation("centres", f"level-0 tile ({sysname}): pixel (row {i}, col {j}) is {dd.max():.3g} rad from the centre of tile (8, {j}, {i}); {(dd > t).sum()} of 65536 pixels differ")
+    return Outcome(classes=["n0", sysname], nontrivial=True, count=1)
+
+
+def enum_level0(tier):
+    for planetary in (False, True):
+        yield {"planetary": planetary}
+        yield {"planetary": planetary, "before": [[1, 0, 1], [3, 2, 5]]}
+
+
 PARTS = [
     Part("all_tiles_small_depth", exec_tile, enumerate=enum_tiles, shards={"quick": 16, "thorough": 16}, budget_s={"quick": 80, "thorough": 1500},
          describe="every tile with 1<=n<=3 (quick) / <=5 (thorough), all 65536 pixels, both systems"),
     Part("sampled_tiles", exec_tile, strategy=strat_tiles, examples={"quick": 100, "thorough": 6000}, shards={"quick": 16, "thorough": 16},
          budget_s={"quick": 60, "thorough": 1200}, describe="generated tiles to depth 16 (incl. the square's corner tile), all pixels, both systems"),
+    Part("level0_grid", exec_level0, enumerate=enum_level0, shards={"quick": 2, "thorough": 2}, budget_s={"quick": 60, "thorough": 60},
+         describe="the level-0 tile's grid as handed to a sampler of a depth-0 layer, both systems"),
 ]
+PARTS[2].exhaustive_tiers = {"quick", "thorough"}
